@@ -283,6 +283,9 @@ def build_expr(e, m):
     if k in ('neg', 'pos', 'T', 'I', 'reduce'):
         a = build_expr(e['a'], m)
         return -a if k == 'neg' else +a if k == 'pos' else a.T if k == 'T' else a.I if k == 'I' else a.reduce()
+    if k in ('TA', 'AT', 'IA', 'AI'):  # products of ONE instance with its own transpose / inverse
+        a = build_expr(e['a'], m)
+        return a.T @ a if k == 'TA' else a @ a.T if k == 'AT' else a.I @ a if k == 'IA' else a @ a.I
     if k in ('matmul', 'add', 'sub'):
         a, b = build_expr(e['a'], m), build_expr(e['b'], m)
         return a @ b if k == 'matmul' else a + b if k == 'add' else a - b
@@ -305,6 +308,9 @@ def expr_str(e):
         return f"{expr_str(e['a'])}.{k}"
     if k == 'reduce':
         return f"({expr_str(e['a'])}).reduce()"
+    if k in ('TA', 'AT', 'IA', 'AI'):
+        a = expr_str(e['a'])
+        return f'({a}.T @ {a})' if k == 'TA' else f'({a} @ {a}.T)' if k == 'AT' else f'({a}.I @ {a})' if k == 'IA' else f'({a} @ {a}.I)'
     if k == 'block_diag':
         return 'BlockDiag[' + ', '.join(expr_str(x) for x in e['parts']) + ']'
     return f"({expr_str(e['a'])} {dict(matmul='@', add='+', sub='-')[k]} {expr_str(e['b'])})"
@@ -414,6 +420,8 @@ def columns_vmap(op, m):
 
 def exact(a):
     """Matrix of floats -> rows of exact values (ints / 'n/d' strings after lib.canon)."""
+    if getattr(a, 'ndim', 2) != 2:
+        return {'not_a_matrix': list(a.shape)}
     return [[Fraction(float(v)) for v in row] for row in a.tolist()]
 
 
@@ -473,6 +481,9 @@ def observe_op(op, case, m):
         obs['matrix_error'] = M
         return obs
     obs['matrix'] = exact(M)
+    if isinstance(obs['matrix'], dict):
+        obs['matrix_error'] = {'error': f'a result of shape {obs.pop("matrix")["not_a_matrix"]}'}
+        return obs
     # as_matrix() is looked at when the class overrides it (the generic one is the same column
     # construction as `columns`, property C04)
     if case.get('no_as_matrix'):
@@ -562,7 +573,7 @@ def check_matrix(name, M, row, tol):
 
 class Check(PropertyCheck):
     id = 'C08'
-    workers = 4  # tracing jax.linear_transpose / jnp.vectorize per instance dominates; 4 processes
+    workers = 6  # one XLA program per case dominates (0.1-0.5 s each); 6 processes
     props = ['C08.v']
     static_targets = ['theories/Lemmas/TagsL.vo']
     coq_header = (
@@ -579,6 +590,17 @@ class Check(PropertyCheck):
         'parameter layout is abstracted: the diagonal values / cos, sin of the angles / band rows enter the model '
         'already broadcast to the input (how they are laid out along axes is C11/C09/C15); jnp.moveaxis is a '
         'relabelling given by the permutation the harness reads off numpy.moveaxis (that it is one: C13)',
+        'T-tie of the scalar paths: tools/translate/tags.py reads AbstractLinearOperator.__rmul__/__truediv__ with ast '
+        '(asarray / `if <guard>: raise <Exception>` / `return HomothetyOperator(<value>, <structure>) @ self`, and that '
+        '__mul__, __neg__, __sub__ go through __rmul__) and fails closed on any other statement form; the guard text '
+        '`other.shape != ()` is modelled as scale_ctor (factor shape = [] or ValueError)',
+        'guard of HomothetyOperator (value is 0-d): not checked by its dataclass constructor; enforced by the scalar '
+        'check of the public paths (theorem scaling_builds_legal_homothety) and observed on everything those paths, '
+        '.I/.T, `@` and reduce() return (derived cases); a HomothetyOperator built directly with an array value is '
+        'outside the guard (the annotation says Scalar)',
+        'Toeplitz sweep cases read the matrix off ONE jitted call jit(vmap(op.mv))(I) (row j = mv(e_j)) and as_matrix() '
+        'under jit, instead of n eager calls; FFT-based methods are compared with the model after snapping to the '
+        'grid of the band values (multiples of 1/8) within 1e-9',
         'guard of the theorems (cm_legal): what the constructor checks (DiagonalOperator._check_leaf_shapes, '
         'observation matrix squareness); for SymmetricBandToeplitzOperator and QURotationOperator, whose '
         'constructors check nothing, that the band values / angles broadcast INTO the input shape (same guard '
@@ -900,7 +922,7 @@ class Check(PropertyCheck):
         for ind, shapes, counts in (([1, 0, 1], [[2]], ['1', '2']), ([2, 2, 0, 2, -1], [[3]], ['1', '0', '4']),
                                     ([0, 3, 3], [[4, 2]], ['1', '0', '0', '2']), ([1, 1], [[2], [2]], ['0', '2'])):
             P = {'cls': 'index', 'idx': ind, 'shapes': shapes}
-            add(U('reduce', B('matmul', U('T', C(P)), C(P))), N['diagonal'],
+            add(U('reduce', U('TA', C(P))), N['diagonal'],
                 M({'cls': 'diagonal', 'values': counts, 'dshape': [len(counts)], 'axis': 0, 'shapes': shapes}))
         ra = {'cls': 'qurot', 'stokes': 'IQU', 'shape': [2], 'ashape': [2], 'cs': [['3/5', '4/5'], ['0', '1']], 'trig': True}
         rb = {'cls': 'qurot', 'stokes': 'IQU', 'shape': [2], 'ashape': [1], 'cs': [['5/13', '-12/13']], 'trig': True}
@@ -924,10 +946,13 @@ class Check(PropertyCheck):
         add(C(hc), N['hwp'], M(hw), trig=True)
         add(U('reduce', C(hc)), N['hwp'], M(hw), trig=True)
         add(U('T', C(hc)), N['qurotT'], M(dict(ra, cls='qurotT')), trig=True)
-        add(U('reduce', B('matmul', C(dg3), U('I', C(dg3)))), N['identity'], M(ident([[3]])))
-        add(B('matmul', U('I', C(dg3)), C(dg3)), N['identity'], M(ident([[3]])))
-        add(U('reduce', B('matmul', C(ma), U('T', C(ma)))), N['identity'], M(ident([[3, 2]])))
-        add(U('reduce', B('matmul', U('I', C(tp)), C(tp))), N['identity'], M(ident([[3]])))
+        add(U('reduce', U('AI', C(dg3))), N['identity'], M(ident([[3]])))
+        add(U('IA', C(dg3)), N['identity'], M(ident([[3]])))
+        add(U('reduce', U('AT', C(ma))), N['identity'], M(ident([[3, 2]])))
+        add(U('reduce', U('TA', C(ma))), N['identity'], M(ident([[2, 3]])))
+        add(U('IA', C(tp)), N['identity'], M(ident([[3]])))
+        add(U('reduce', U('AI', C(tp))), N['identity'], M(ident([[3]])))
+        add(U('reduce', U('TA', C(rot))), N['identity'], M({'cls': 'identity_stokes', 'stokes': 'IQU', 'shape': [2]}), trig=True)
         return cs
 
     def rule(self):
@@ -1252,6 +1277,8 @@ class Check(PropertyCheck):
             lazy = 'lazy' in case['cls'] or case['cls'] == 'qurotT' or name in ('QURotationTransposeOperator', 'AbstractLazyInverseOrthogonalOperator')
             M = tofloat(obs['matrix'])
             msgs += check_matrix('matrix of mv', M, row, tol)
+            if isinstance(obs['as_matrix'], dict) and 'not_a_matrix' in obs['as_matrix']:
+                msgs.append(f'as_matrix() returns an array of shape {obs["as_matrix"]["not_a_matrix"]}')
             if not isinstance(obs['as_matrix'], dict):
                 A = tofloat(obs['as_matrix'])
                 msgs += check_matrix('as_matrix()', A, row, max(tol, TOL if lazy else 0.0))
